@@ -1001,8 +1001,27 @@ func (w *proxyWorld) clientTask(ci int) {
 			continue
 		}
 		if q.Truncate > 0 {
+			// Damage to stored bodies at rest only: while a response is on its way its head has been
+			// sent and nothing can be done about a body that ends early, and a store in progress writes
+			// to a temporary file of its own. So the disk loses bytes only at instants at which no client
+			// is waiting for anything, and only from files that are entries.
+			w.mu.Lock()
+			busy := false
+			for _, e := range w.exch {
+				if e.RecvSeq == 0 {
+					busy = true
+				}
+			}
+			w.mu.Unlock()
+			if busy {
+				w.res.probe("disk_damage_skipped_exchange_in_flight")
+				continue
+			}
 			files, _ := os.ReadDir(filepath.Join(w.dir, "cache"))
 			for _, f := range files {
+				if strings.HasSuffix(f.Name(), ".tmp") {
+					continue
+				}
 				pth := filepath.Join(w.dir, "cache", f.Name())
 				if st, err := os.Stat(pth); err == nil && !st.IsDir() && st.Size() > int64(q.Truncate) {
 					if os.Truncate(pth, st.Size()-int64(q.Truncate)) == nil {
